@@ -38,8 +38,9 @@ impl<'a> Reader<'a> {
 }
 
 pub fn motif(r: &mut Reader) -> Motif {
-    match r.below(14) {
+    match r.below(15) {
         0 => Motif::None,
+        13 => Motif::SliderSwarm { black: r.bool(), corner: r.below(4), file_n: r.below(5), rank_n: r.below(5), diag_n: r.below(3), diag_queen_far: r.bool() },
         12 => Motif::CastleMate { black: r.bool(), long: r.bool(), variant: r.below(4) },
         11 => Motif::CastleOnly { black: r.bool(), long: r.bool(), cover_queen: r.bool(), cover_dist: r.below(4), drop: r.below(4) },
         10 => Motif::EpStalemate { black: r.bool(), file: r.below(6), capturer_right: r.bool(), dir: r.below(4), dk: r.below(4), ds: r.below(4), with_slider: r.below(4) != 0, queen: r.bool() },
